@@ -19,7 +19,9 @@ def gen_sim_cfg(rng, fine=False):
     return {"workers": rng.choice((1, 2, 2, 3, 4, 4, 8, 16)),
             "strategy": strategy,
             "switch_p": rng.choice((0.05, 0.3, 0.7)),
-            "stall": rng.random() < 0.2}
+            "stall": rng.random() < 0.2,
+            # 'fine': line-level pre-emption inside tasks (spatialpandas source lines)
+            "fine": rng.random() < 0.15, "line_p": rng.choice((0.02, 0.1, 0.3))}
 
 
 def gen_store_cfg(rng):
@@ -103,6 +105,8 @@ def new_store(sim, root, cfg, plan=None, repeat=None):
 
 
 def new_sim(seed, cfg, **kw):
+    if cfg.get("fine") and "trace_files" not in kw:
+        kw = dict(kw, trace_files=(seams.SP_DIR,), line_p=cfg.get("line_p", 0.05))
     return Sim(seed, workers=cfg.get("workers", 4), strategy=cfg.get("strategy", "random"),
                switch_p=cfg.get("switch_p", 0.3),
                stall_p=0.1 if cfg.get("stall") else 0.0, **kw)
